@@ -66,7 +66,7 @@ class Runner:
             while True:
                 while b"\n" in buf[0]:
                     line, buf[0] = buf[0].split(b"\n", 1)
-                    if line.startswith(b"bestmove"):
+                    if line.startswith(b"bestmove") or line.startswith(b"Speed:"):
                         return True
                 if time.time() >= end:
                     return None
@@ -173,6 +173,13 @@ def grammar(tier, exe_rel, bookdir):
         "mid": ["go depth 1", "go depth 3", "go movetime 50", "go infinite", "SEARCHMOVES"] + ([] if q else ["go depth 6", "go"]),
     }
     sessions = []
+    # perft walks the same make/unmake and move-list machinery without the search
+    for name, pos, cls in P:
+        for d in ((1, 3) if q else (1, 2, 3, 4)):
+            if cls == "big" and d > 2:
+                continue
+            sessions.append(dict(name="%s|perft %d" % (name, d), pre=[], perft=True,
+                                 rounds=[(pos, "perft %d" % d, False, [])]))
     for name, pos, cls in P:
         for g in G_by_class[cls]:
             if g == "SEARCHMOVES":
@@ -202,7 +209,7 @@ def grammar(tier, exe_rel, bookdir):
         G2 = {"trivial": ["go depth 41", "go depth 1000"], "long": ["go depth 2", "go movetime 50"], "big": ["go depth 1"], "mid": ["go depth 3"]}
         first = list(sessions)
         for s in first:
-            if s["pre"] or "|newgame" in s["name"]:
+            if s["pre"] or "|newgame" in s["name"] or s.get("perft"):
                 continue
             for name, pos, cls in P2:
                 for g in G2[cls]:
